@@ -254,6 +254,10 @@ def run_case(case: dict[str, Any]) -> Outcome:
             raise S.SchedulerError("same case produced a different history on re-execution (non-deterministic harness)")
 
     violations = monitor(run.log, run.n_sessions, run.registered)
+    # a request that got the session lock only after the session had left the registry must not dispatch (it would run
+    # against a session whose close hook is merely waiting for that lock): the "never after it ended" half of the
+    # statement, seen one step earlier than the close hook itself
+    violations += [("dispatch_on_unregistered_session/lock_acquired_after_removal", w) for w in W.late_lock_dispatches(run)[:1]]
     for key, what in violations:
         out.fail(key, what)
         out.label("viol=" + key)
